@@ -56,20 +56,24 @@ class Recorder:
 
 
 def canonicalize(events):
-    """sort each maximal run of 'Closed ... connection' notices (their order is a set iteration
-    in the tool) and drop sequence numbers inside such runs"""
+    """sort each maximal run of 'Closed ... connection' notices / close notifications (their order is
+    a set iteration in the tool) and drop sequence numbers"""
     out = []
     run = []
+
+    def flush():
+        if run:
+            out.extend(sorted(run))
+            del run[:]
     for e in events:
         if e[1] == 'out' and isinstance(e[2], str) and e[2].startswith('Closed '):
-            run.append(e[2])
+            run.append(('closed', e[2]))
+        elif e[1] == 't-close':
+            run.append(('t-close', e[2]))
         else:
-            if run:
-                out.extend(('closed', x) for x in sorted(run))
-                run = []
+            flush()
             out.append((e[1], e[2]))
-    if run:
-        out.extend(('closed', x) for x in sorted(run))
+    flush()
     return out
 
 
@@ -238,7 +242,7 @@ class MainResult:
 
 
 def run_main(argv, data, chunks, script=('quit',), on_read=None, interrupt_at=None, stdin_errors='strict',
-             rec=None, run_shim=None, capture=False):
+             rec=None, run_shim=None, capture=False, tracker=None):
     """Start the tool the way __main__ does: parse_args -> set_color_output -> Output -> main.main.
     Mode is taken from argv (-l FILE: file; -p: pipe; -r ...: run, needs run_shim)."""
     t = tool()
@@ -270,11 +274,13 @@ def run_main(argv, data, chunks, script=('quit',), on_read=None, interrupt_at=No
         if run_shim is not None:
             t['runner'].os = run_shim.os_shim
             t['runner'].subprocess = run_shim.subprocess_shim
-        if capture:
+        if capture or tracker is not None:
             def capturing_controller(*a, **kw):
                 c = real_controller(*a, **kw)
                 res.controller = c
                 res.conn_manager = a[1]
+                if tracker is not None:
+                    a[1].add_connection_list_listener(tracker.make(), True)
                 return c
             m.Controller = capturing_controller
         try:
